@@ -1,6 +1,7 @@
 (* C04 — SML print -> parse round trip (partial: the literal level is proved,
    the token and character levels are decided by correspondence and monitors). *)
-From Secs Require Import Ast Fill Msg Lexer Parser SmlNumbers SmlProofs.
+From Secs Require Import Ast FloatProofs Fill Msg WireSpec WireLemmas WireValues HeaderProofs WireEnc WireDec MsgProofs AstProofs FillProofs FillCompose.
+From Secs Require Import Lexer Parser SmlNumbers SmlProofs TokenProofs.
 Open Scope Z_scope.
 
 (* integers are printed in decimal (FormatInt); scanning the printed form gives the value back *)
@@ -30,9 +31,49 @@ Theorem C04_partial_size : forall a, 0 <= a < two63 -> parse_size ([x5b] ++ fmt_
 Proof. exact parse_size_exact. Qed.
 Print Assumptions C04_partial_size.
 
+(* token level, value items of the integer, unsigned, binary and boolean
+   formats: from the tokens of the printed elements "e1 ... en >" the parser
+   builds exactly the item that was printed — every stored value is read back,
+   every variable is kept under its name — and reports nothing *)
+Theorem C04_leaf_tokens : forall floats k w xs st rab rest,
+  k <> KFloat -> fmt_ok k w ->
+  Forall (slot_built k w) xs -> size_ok (size_typ k w) (length xs) = true -> width_okb k w = true ->
+  forallb (val_okb k w) xs = true -> names_ok xs = true ->
+  (forall n, In n (slot_vars xs) -> known_name st n = false) ->
+  toks st = map (slot_token k) xs ++ rab :: rest -> t_typ rab = TRAB ->
+  exists st', parse_numeric floats (nk_of k w) st = (IOk (ILeaf k w xs), st') /\
+              toks st' = rab :: rest /\ errs st' = errs st /\ warns st' = warns st /\ names_char st st' (slot_vars xs).
+Proof. exact leaf_parses_back. Qed.
+Print Assumptions C04_leaf_tokens.
+
+(* the whole printed value item "<TYPE[n] e1 ... en>": '<', the type name, the
+   size declaration (which the item meets), the elements, '>' *)
+Theorem C04_leaf_item : forall floats rec_list k w xs st rest,
+  k <> KFloat -> fmt_ok k w ->
+  Forall (slot_built k w) xs -> size_ok (size_typ k w) (length xs) = true -> width_okb k w = true ->
+  forallb (val_okb k w) xs = true -> names_ok xs = true ->
+  (forall n, In n (slot_vars xs) -> known_name st n = false) ->
+  toks st = leaf_tokens k w xs ++ rest ->
+  exists st', parse_item_body floats rec_list st = (Some (ILeaf k w xs), st') /\
+              toks st' = rest /\ errs st' = errs st /\ warns st' = warns st /\ names_char st st' (slot_vars xs).
+Proof. exact leaf_item_parses_back. Qed.
+Print Assumptions C04_leaf_item.
+
+(* whole item trees made of lists, plain list variables and integer / unsigned /
+   binary / boolean value items, of any size and nesting: from the tokens of
+   the printed form the parser rebuilds the same tree, reports nothing,
+   consumes exactly those tokens and records exactly the tree's variables *)
+Theorem C04_item_tokens : forall floats t st rest,
+  printable t -> (forall n, In n (vars t) -> known_name st n = false) ->
+  toks st = item_tokens t ++ rest ->
+  exists st', parse_item floats (S (length (toks st))) st = (Some t, st') /\ toks st' = rest /\
+              errs st' = errs st /\ warns st' = warns st /\ names_char st st' (vars t).
+Proof. exact item_parses_back. Qed.
+Print Assumptions C04_item_tokens.
+
 (* C04_print_parse (missing): parse (print_msg m) = ([m], [], []) for every
-   canonical message — the composition of the literal lemmas above with the
-   lexing of the printed layout is not proved; it is decided on the library by
-   the monitors of suite C04 (print -> parse -> compare, and the fixed point of
-   every accepted text) and by the correspondence of printer, lexer and parser
-   with the model. *)
+   canonical message — the lexing of the printed layout into those tokens, and
+   float items, ASCII items and ellipses at the token level are not proved; they are
+   decided on the library by the monitors of suite C04 (print -> parse ->
+   compare, and the fixed point of every accepted text) and by the
+   correspondence of printer, lexer and parser with the model. *)
